@@ -924,6 +924,82 @@ def str_construct_cases(ctx, n):
         enc_ls = [bytes(l) for _, l in ls]
         yield "construct", [1, enc_ls]  # the same octets as bytes labels, also against the model
 
+
+# ------------------------------------------------------------------ generator 7: deep suffix chains
+
+def nested_names(rng, depth, base, maxlab=1):
+    """l1.base, l2.l1.base, ... (shortest suffix first): through one compression table every name is
+    one label plus a pointer to the previous name, so decoding the k-th name follows k pointers"""
+    names, cur = [], list(base)
+    for _ in range(depth):
+        lab = rand_octets(rng, rng.randint(1, maxlab)) or b"a"
+        nxt = [lab] + cur
+        if not nl.fits(nxt):
+            break
+        cur = nxt
+        names.append(cur)
+    return names
+
+
+def chain_wire(rng, hops, bare_prob=0.3):
+    """hand-built message: a terminal name, then `hops` segments each ending in a pointer to the previous
+    segment (strictly decreasing targets); a segment is a bare pointer or labels + pointer.
+    Returns (message, [start offset of every segment])"""
+    msg = bytearray(rand_octets(rng, rng.choice([0, 0, 3, 12])))
+    starts = [len(msg)]
+    msg += enc(small_labels(rng, rng.randint(0, 2), 3) + [b""])
+    nlabels = 3
+    for _ in range(hops):
+        st = len(msg)
+        if rng.random() >= bare_prob and nlabels < 120:
+            msg += bytes([1, rng.choice(b"abcXYZ019")])
+            nlabels += 1
+        msg += ptr(starts[-1])
+        starts.append(st)
+    return bytes(msg), starts
+
+
+def deep_chain_cases(ctx):
+    rng = ctx.rng
+    depths = [2, 5, 15, 16, 17, 18, 31, 64, 100, 126] if ctx.quick else [2, 5, 15, 16, 17, 18, 20, 31, 33, 64, 65, 90, 100, 120, 125, 126, 127] * 4
+    for d in depths:
+        base = rng.choice([[b""], [b""], [b"example", b""], [b"Ex", b"COM", b""]])
+        names = nested_names(rng, d, base, rng.choice([1, 1, 1, 2]))
+        if not names:
+            continue
+        pad = rng.choice([0, 12, 100])
+        ctx.count("compress:nested-shortest-first")
+        # oracle-only: write all of them through one table and decode every one at its offset
+        yield "compress_rt", [33, names, None, pad]
+        # against the model: the writer itself (case size bounded) ...
+        yield "compress", [7, names[:40], None, pad]
+        # ... and the decoder, on the message the renderer would produce (built here by hand:
+        # first name plain, every later name = one label + pointer to the previous name)
+        msg = bytearray(b"\0" * rng.choice([0, 12]))
+        starts = []
+        for k, n in enumerate(names):
+            starts.append(len(msg))
+            if k == 0:
+                msg += enc(n)
+            else:
+                msg += bytes([len(n[0])]) + n[0] + ptr(starts[k - 1])
+        if len(msg) <= 700:
+            for k in sorted({0, 1, len(names) // 2, 15, 16, 17, len(names) - 2, len(names) - 1}):
+                if 0 <= k < len(names):
+                    yield "from_wire", [8, bytes(msg), starts[k]]
+                    yield "from_wire_tr", [17, bytes(msg), starts[k]]
+    # hand-built strictly decreasing pointer chains of length 2..200 (labels and bare pointers)
+    hops_list = [2, 3, 8, 15, 16, 17, 18, 32, 63, 64, 100, 127, 128, 150, 200] if ctx.quick else list(range(2, 201, 3)) + [16, 17, 127, 128, 200]
+    for h in hops_list:
+        m, starts = chain_wire(rng, h, rng.choice([0.0, 0.3, 0.7, 1.0]))
+        if len(m) > 700:
+            continue
+        ctx.count("wire:decreasing-chain")
+        for k in sorted({len(starts) - 1, len(starts) // 2, min(17, len(starts) - 1)}):
+            yield "from_wire", [8, m, starts[k]]
+            yield "from_wire_tr", [17, m, starts[k]]
+            yield "wire_chain_rt", [38, m, starts[k], k]
+
 # ------------------------------------------------------------------ cases
 
 
@@ -973,6 +1049,9 @@ def cases(ctx):
     # ---- 3. wire
     yield from wire_cases(ctx, ctx.n(70, 1300), ctx.n(260, 5200), ctx.n(4, 10))
 
+    # ---- 7. deep suffix / pointer chains
+    yield from deep_chain_cases(ctx)
+
     # ---- 6. construction from str labels (implementation only; op 1 on the encoded octets goes to the model)
     yield from str_construct_cases(ctx, ctx.n(400, 6000))
 
@@ -1010,6 +1089,9 @@ def impl(case):
             t = n.to_text()
             tb = t.encode("latin-1")
             return [tb, _labels_or_err(lambda: dns.name.from_text(t, None)), _labels_or_err(lambda: dns.name.from_text(tb, None))]
+        if op == 38:
+            n, c = dns.name.from_wire(bytes(case[1]), case[2])
+            return [nl.labels_of(n), c]
         if op == 37:
             labels = [bytes(l).decode("utf-8") if k else bytes(l) for k, l in case[1]]
             n = dns.name.Name(labels)  # exceptions -> code through the outer handler
@@ -1147,6 +1229,11 @@ def _oracle(ctx, kind, case, out):
             fail("valid name could not be converted to text and back: " + out.text)
         elif op == 32 and is_abs(case[1]):
             fail("valid absolute name could not be converted to wire and back: " + out.text)
+        elif op == 38:
+            # a chain of strictly decreasing pointers over well-formed labels: the only legitimate
+            # failures are the name limits (NameTooLong / LabelTooLong), never BadPointer
+            if out.code not in (1, 2):
+                fail("a strictly decreasing pointer chain of %d hops is rejected: %s" % (case[3], out.text))
         elif op == 37:
             enc_ls = [bytes(l) for _, l in case[1]]
             ok = set()
@@ -1189,6 +1276,8 @@ def _oracle(ctx, kind, case, out):
         produced = [out]
     elif op == 34:
         produced = [x for x in out if not isinstance(x, Err)]
+    elif op == 38:
+        produced = [out[0]]
     elif op == 37:
         produced = [out[0]]
     elif op == 35:
